@@ -182,7 +182,7 @@ def check(ctx):
     proved = ctx.prove("props/C04.v", ["proofs/TacticsFacts.v", "proofs/TermGenCore.v", "proofs/TermGenArith.v", "proofs/TermGenRemove.v", "proofs/TermGenSubst.v", "proofs/TermGenIsolate.v"])
     ctx.build(["model/Corr.vo", "base/Farkas.vo"])
     rng = random.Random(ctx.seed + 4)
-    n = (400 if ctx.quick else 6000) * (1 if proved else 3)
+    n = (400 if ctx.quick else 30000) * (1 if proved else 3)
     exprs, cases, seen = [], [], set()
     hist = {}
     for k in range(n):
